@@ -30,6 +30,14 @@ pub struct Case {
     pub built: Option<(Built, [std::collections::BTreeMap<String, String>; 2])>,
     pub not_first_node: bool,
     pub note: String,
+    /// the valid file the corruption started from, to be offered under the *other* format's name
+    pub probe: Option<Probe>,
+}
+
+pub struct Probe {
+    pub text: String,
+    pub via_stdin: bool,
+    pub ext: &'static str,
 }
 
 const KW_JSON: [&str; 3] = ["json", "auto-error", "known format"];
@@ -535,6 +543,7 @@ pub fn decode(bytes: &[u8]) -> Option<Case> {
     };
     let mut built = None;
     let mut note = String::new();
+    let mut valid_text: Option<String> = None;
     let (text, expect, not_first) = if mode == 1 {
         // a contract violation of C11, carried through the file format
         let mut ops = Vec::new();
@@ -578,7 +587,7 @@ pub fn decode(bytes: &[u8]) -> Option<Case> {
         let text = if efg {
             // the Gambit grammar validates infoset action sets and chance distributions itself
             kw.extend(KW_GAMBIT.iter());
-            let opts = EfgOpts { unit: 0.0, constant: 0.0, interior: false, share_outcomes: false, unnamed_fraction: 0 };
+            let opts = EfgOpts { unit: 0.0, constant: 0.0, interior: false, share_outcomes: false, unnamed_fraction: 0, free_chance_labels: false };
             match std::panic::catch_unwind(std::panic::AssertUnwindSafe(|| cli::to_efg_text(&tree, &opts, &mut s))) {
                 Ok(t) => t.text,
                 Err(_) => return None,
@@ -599,8 +608,10 @@ pub fn decode(bytes: &[u8]) -> Option<Case> {
             interior: s.bool(),
             share_outcomes: s.chance(64),
             unnamed_fraction: [0, 96][s.below(2)],
+            free_chance_labels: true,
         };
         let out = cli::to_efg_text(&tree, &opts, &mut s);
+        valid_text = Some(out.text.clone());
         let (text, expect, nf) = efg_fault(&mut s, &out, &tree, constant)?;
         if let Expect::Accept(_) = expect {
             let info = Info::of(&tree);
@@ -610,9 +621,20 @@ pub fn decode(bytes: &[u8]) -> Option<Case> {
     } else {
         // corruptions are placed relative to the document itself, not to whitespace around it
         let text = cli::to_json_text(&tree, &mut s).trim().to_string();
+        valid_text = Some(text.clone());
         json_fault(&mut s, &text)?
     };
+    // drawn last, so that everything above decodes as it did before the probe existed
+    let probe = match valid_text {
+        Some(text) if s.chance(40) => Some(Probe {
+            text,
+            via_stdin: s.chance(64),
+            ext: ["txt", "json", "efg", "dat"][s.below(4)],
+        }),
+        _ => None,
+    };
     Some(Case {
+        probe,
         text,
         efg,
         expect,
@@ -742,7 +764,52 @@ pub fn check(bytes: &[u8], _ctx: &Ctx) -> Verdict {
     for p in [&in_path, &out_path].into_iter().flatten() {
         let _ = std::fs::remove_file(p);
     }
-    verdict
+    // the valid file of this case, offered under the other format's name: an explicit
+    // --input-format selects the reader whatever the extension says, and a valid Gambit file is
+    // not a JSON game (nor the reverse)
+    let (nontrivial, mut labels, probe) = match (verdict, case.probe.as_ref()) {
+        (Verdict::Pass { nontrivial, labels }, Some(p)) => (nontrivial, labels, p),
+        (v, _) => return v,
+    };
+    {
+        let named = if case.efg { "json" } else { "gambit" };
+        let mut a: Vec<String> = vec!["-t".into(), "5".into(), "-p".into(), "1".into(), "--input-format".into(), named.into()];
+        let mut path = None;
+        if !probe.via_stdin {
+            let p = cli::tmp_path(probe.ext);
+            if std::fs::write(&p, &probe.text).is_err() {
+                return Verdict::fail("harness/io", "cannot write the input file");
+            }
+            a.push("-i".into());
+            a.push(p.display().to_string());
+            path = Some(p);
+        }
+        let ran = cli::run_cli(&a, if probe.via_stdin { Some(&probe.text) } else { None });
+        if let Some(p) = path {
+            let _ = std::fs::remove_file(p);
+        }
+        let route = format!("valid {} file offered as --input-format {} via {}", fmt, named, if probe.via_stdin { "stdin".to_string() } else { format!("a .{} file", probe.ext) });
+        let name = "valid-file-of-the-other-format";
+        if ran.timed_out {
+            return Verdict::fail(format!("C17/timeout/{}", name), format!("{}: the program did not finish within 60 s", route));
+        }
+        if ran.code == Some(0) {
+            return Verdict::fail(format!("C17/accepted/{}", name), format!("{}: exit status 0; stdout starts {:?}", route, ran.stdout.chars().take(160).collect::<String>()));
+        }
+        if !ran.stdout.trim().is_empty() {
+            return Verdict::fail(format!("C17/stdout-not-empty/{}", name), format!("{}: wrote {:?} before failing", route, ran.stdout.chars().take(160).collect::<String>()));
+        }
+        if ran.code.is_none() {
+            return Verdict::fail(format!("C17/killed-by-signal/{}", name), format!("{}: the program died from a signal", route));
+        }
+        let lower = ran.stderr.to_lowercase();
+        let kws: &[&str] = if named == "json" { &KW_JSON } else { &KW_GAMBIT };
+        if !kws.iter().any(|k| lower.contains(k)) {
+            return Verdict::fail(format!("C17/diagnostic/{}", name), format!("{}: rejected, but stderr names none of {:?}: {:?}", route, kws, ran.stderr.lines().take(3).collect::<Vec<_>>()));
+        }
+        labels.push("other-format-probe");
+        Verdict::Pass { nontrivial, labels }
+    }
 }
 
 pub fn describe(bytes: &[u8]) -> Value {
@@ -758,7 +825,7 @@ pub fn prop() -> Prop {
         id: "C17",
         check,
         describe,
-        rule: "a generated valid file plus one semantic corruption whose outcome is known by construction, under explicit and automatic format selection, file and stdin, with and without -o. JSON: truncation, removed brace/quote, trailing garbage, dropped prob/state/player_one/infoset/actions/outcomes, wrong types, unknown or double variant tag, non-finite payoff literal, non-positive probability, empty actions/outcomes. Gambit: truncation, header damage, three players, player number 3, chance probabilities not summing to one, three payoffs, payoffs on the null outcome, a leaf payoff moved beyond the constant-sum tolerance by factors {1.01, 2, 100} (controls at 0.5 and 0.99 must be accepted), one payoff of any outcome (leaf, interior player or chance node, also one that other nodes refer to by number) edited by a multiple of the tolerance with the verdict computed from the file's own structure, 1e400 payoffs, two infosets under one name (explicit, or the number string of an unnamed one). Both: any contract violation operator of C11 carried through the format. Oracle: exit status != 0, empty stdout, no -o file, stderr naming a keyword of the expected category (loose alternatives; auto-detection may report its own category). Non-trivial = the corruption is not at the first node; distinct by file text.",
+        rule: "a generated valid file plus one semantic corruption whose outcome is known by construction, under explicit and automatic format selection, file and stdin, with and without -o. JSON: truncation, removed brace/quote, trailing garbage, dropped prob/state/player_one/infoset/actions/outcomes, wrong types, unknown or double variant tag, non-finite payoff literal, non-positive probability, empty actions/outcomes. Gambit: truncation, header damage, three players, player number 3, chance probabilities not summing to one, three payoffs, payoffs on the null outcome, a leaf payoff moved beyond the constant-sum tolerance by factors {1.01, 2, 100} (controls at 0.5 and 0.99 must be accepted), one payoff of any outcome (leaf, interior player or chance node, also one that other nodes refer to by number) edited by a multiple of the tolerance with the verdict computed from the file's own structure, 1e400 payoffs, two infosets under one name (explicit, or the number string of an unnamed one). Both: any contract violation operator of C11 carried through the format (incl. every weight of a chance node negative). After a passing case, one time in six, the valid file the corruption started from is offered under the other format's name (explicit --input-format, any of four extensions or stdin): it must be refused with that format's diagnostic. Oracle: exit status != 0, empty stdout, no -o file, stderr naming a keyword of the expected category (loose alternatives; auto-detection may report its own category). Non-trivial = the corruption is not at the first node; distinct by file text.",
         max_len: 900,
         cases_quick: 120_000,
         cases_thorough: 1_200_000,
